@@ -95,6 +95,19 @@ where
         go (k - 1) (v :: acc) toks
     go n [] toks
 
+/-- The harness cannot tell `[]uint8` from `[]byte` (they are one Go type); the emitter can (by the
+spelling). Re-shape byte strings into element lists where the node says "slice of uint8". -/
+partial def coerce (n : Node) (v : Val) : Val :=
+  match n, v with
+  | _, .ptr w => .ptr (coerce (n.withPtr false) w)
+  | .slice i e, .bytes isNil d c =>
+    if i.typn == "[]byte" then v
+    else Val.slice isNil (d.map fun b => coerce e (Val.uint b.toNat)) c
+  | .slice i e, .slice nl es c => if i.typn == "[]byte" then v else Val.slice nl (es.map (coerce e)) c
+  | .struct _ ch, .struct fs => Val.struct ((ch.zip fs).map fun (c, f) => coerce c f)
+  | .map _ k mv, .map nl ks vs => Val.map nl (ks.map (coerce k)) (vs.map (coerce mv))
+  | _, _ => v
+
 def parseSeg (tok : String) : Option Seg :=
   match splitColon tok with
   | [h, pi, pu, pf, pb] => do
